@@ -1,4 +1,5 @@
 import AFV.Lemmas.SearchExamples
+import AFV.Lemmas.MapspaceRef
 /-!
 # C02 — the returned Pareto front is complete, minimal and duplicate-free (abstract part)
 
@@ -109,5 +110,114 @@ example : (front [[2, 8], [4, 4], [8, 2], [5, 5]]).length = 3 := by decide
 -- `ffm_front` is applicable to the example of C13 and its conclusion is a two-row front
 example : front ((ffm opsChain 10 [[⟨1, [5, 2], [3]⟩, ⟨1, [4, 9], [3]⟩, ⟨1, [6, 9], [3]⟩],
     [⟨10, [1, 1], [3]⟩]]).map (·.obj)) = [[5, 10], [6, 3]] := by decide
+
+/-! ## The reference front of the whole mapspace (`AFV/Spec/Mapspace.lean`)
+
+`refFront o D s` is the Pareto front of the objective vectors (exactly scaled by `D` to integers) of every valid member of
+`Mapspace.all s`, which is exactly the described space (`AFV.C01.all_complete` / `all_sound`). -/
+section Mapspace
+open AFV.Mapspace AFV.Nest
+
+/-- **`refFront_complete`**: every valid mapping of the mapspace is weakly dominated — in exact rational arithmetic, on
+the requested objectives — by a valid mapping whose objective vector is in `refFront`. -/
+theorem refFront_complete (o : Objs) {D : Nat} (hD : 0 < D) (s : SpecDesc) {F : List Vec} (hF : refFront o D s = some F)
+    {m : Mapping Nat} (hm : inSpace s m = true) {c : Cost} (hc : cost s m = some c) (hf : c.fits = true) :
+    ∃ m' c' f, inSpace s m' = true ∧ cost s m' = some c' ∧ c'.fits = true ∧
+      scaleVec D (c'.vecQ o) = some f ∧ f ∈ F ∧ leQ (c'.vecQ o) (c.vecQ o) := by
+  unfold refFront at hF
+  simp only [Option.map_eq_some_iff] at hF
+  obtain ⟨rows, hrows, rfl⟩ := hF
+  have hmap := optAll_eq_some hrows
+  have hcmem : c ∈ validCosts s (all s) := mem_validCosts.2 ⟨m, (mem_all_iff s m).2 hm, hc, hf⟩
+  have h1 : scaleVec D (c.vecQ o) ∈ rows.map some := by
+    rw [← hmap]; exact List.mem_map.2 ⟨c, hcmem, rfl⟩
+  obtain ⟨v, hv, hsv⟩ := List.mem_map.1 h1
+  obtain ⟨f, hf', hle⟩ := AFV.Front.front_complete hv
+  have hfrows : f ∈ rows := AFV.Front.front_subset hf'
+  have h2 : some f ∈ (validCosts s (all s)).map (fun c => scaleVec D (c.vecQ o)) := by
+    rw [hmap]; exact List.mem_map.2 ⟨f, hfrows, rfl⟩
+  obtain ⟨c', hc', hsc'⟩ := List.mem_map.1 h2
+  obtain ⟨m', hm', hcost', hfit'⟩ := mem_validCosts.1 hc'
+  exact ⟨m', c', f, (mem_all_iff s m').1 hm', hcost', hfit', hsc', hf',
+    (scaleVec_leqAll hD hsc' hsv.symm).1 hle⟩
+
+/-- **`refFront_minimal`**: no valid mapping of the mapspace strictly dominates a member of `refFront`. -/
+theorem refFront_minimal (o : Objs) {D : Nat} (s : SpecDesc) {F : List Vec} (hF : refFront o D s = some F)
+    {f : Vec} (hf : f ∈ F) {m : Mapping Nat} (hm : inSpace s m = true) {c : Cost} (hc : cost s m = some c)
+    (hfit : c.fits = true) {v : Vec} (hv : scaleVec D (c.vecQ o) = some v) : dom v f = false := by
+  unfold refFront at hF
+  simp only [Option.map_eq_some_iff] at hF
+  obtain ⟨rows, hrows, rfl⟩ := hF
+  have hmap := optAll_eq_some hrows
+  have hcmem : c ∈ validCosts s (all s) := mem_validCosts.2 ⟨m, (mem_all_iff s m).2 hm, hc, hfit⟩
+  have h1 : some v ∈ rows.map some := by
+    rw [← hmap, ← hv]; exact List.mem_map.2 ⟨c, hcmem, rfl⟩
+  obtain ⟨v', hv', hsv⟩ := List.mem_map.1 h1
+  simp only [Option.some.injEq] at hsv
+  subst hsv
+  exact AFV.Front.front_minimal hf hv'
+
+/-- **`refFront_attained` / `refFront_distinct`**: every member of `refFront` is the objective vector of a valid mapping
+of the mapspace, and no vector occurs twice. -/
+theorem refFront_attained (o : Objs) {D : Nat} (s : SpecDesc) {F : List Vec} (hF : refFront o D s = some F)
+    {f : Vec} (hf : f ∈ F) :
+    ∃ m c, inSpace s m = true ∧ cost s m = some c ∧ c.fits = true ∧ scaleVec D (c.vecQ o) = some f := by
+  unfold refFront at hF
+  simp only [Option.map_eq_some_iff] at hF
+  obtain ⟨rows, hrows, rfl⟩ := hF
+  have hmap := optAll_eq_some hrows
+  have h2 : some f ∈ (validCosts s (all s)).map (fun c => scaleVec D (c.vecQ o)) := by
+    rw [hmap]; exact List.mem_map.2 ⟨f, AFV.Front.front_subset hf, rfl⟩
+  obtain ⟨c, hc, hsc⟩ := List.mem_map.1 h2
+  obtain ⟨m, hm, hcost, hfit⟩ := mem_validCosts.1 hc
+  exact ⟨m, c, (mem_all_iff s m).1 hm, hcost, hfit, hsc⟩
+
+theorem refFront_distinct (o : Objs) {D : Nat} (s : SpecDesc) {F : List Vec} (hF : refFront o D s = some F) : F.Nodup := by
+  unfold refFront at hF
+  simp only [Option.map_eq_some_iff] at hF
+  obtain ⟨rows, _, rfl⟩ := hF
+  exact AFV.Front.front_distinct rows
+
+/-- The harness obtains the (energy, latency) front from the (energy, latency, usage…) front by dropping the usage
+coordinates and pruning again: that is the front of the projected vectors of ALL rows. -/
+theorem front_project (k : Nat) (rows : List Vec) :
+    front ((front rows).map (List.take k)) = front (rows.map (List.take k)) := by
+  apply AFV.Front.front_map_mono
+  intro a _ b _ hab
+  have h := AFV.Front.leqAll_iff.1 hab
+  apply AFV.Front.leqAll_iff.2
+  refine ⟨by simp [h.1], ?_⟩
+  intro i h₁ h₂
+  have h₁' : i < a.length := by simp at h₁; omega
+  have h₂' : i < b.length := by simp at h₂; omega
+  have := h.2 i h₁' h₂'
+  simpa [List.getElem_take] using this
+
+/-- Merging the fronts of the parts of a split scan gives the front of the whole. -/
+theorem front_parts (L : List (List Vec)) : front ((L.map front).flatten) = front L.flatten :=
+  (AFV.Front.front_flatten_fronts L).symm
+
+/-! ### Non-vacuity: two rank variables of bound 2, an input indexed by both and an output indexed by the first, on a
+main memory and a 24-bit buffer: 38 mappings, 36 fit, the (energy, latency) front has two points. -/
+
+def exLevel (sz e thr : Rat) : Level Rat :=
+  { (Level.dflt : Level Rat) with size := sz, read := { energy := e, throughput := thr }, write := { energy := e, throughput := thr } }
+
+def exSpec : SpecDesc :=
+  { arch := { levels := [exLevel 1 10 4, exLevel 24 1 1],
+              compute := { energy := 1, throughput := 8, leak := 0, actionsScale := 1, skipInitial := true } }
+    bounds := [2, 2]
+    tensors := [{ rvs := [0, 1], isOutput := false, bpv := 8 }, { rvs := [0], isOutput := true, bpv := 8 }]
+    nInstances := 1
+    rules := [{ keep := [0, 1], mayKeep := [] }, { keep := [], mayKeep := [0, 1] }]
+    infSize := [true, false]
+    forceOrder := true }
+
+example : refFront ⟨true, true, false⟩ 8 exSpec = some [[4384, 512], [6432, 160]] := by decide +kernel
+example : refFront ⟨true, true, true⟩ 24 exSpec = some [[13152, 1536, 0, 8], [19296, 480, 0, 0]] := by decide +kernel
+-- a scale that does not clear the denominators is refused, nothing is rounded
+example : refFront ⟨true, true, true⟩ 1 exSpec = none := by decide +kernel
+
+end Mapspace
 
 end AFV.C02
